@@ -554,6 +554,11 @@ type c20WalkCase struct {
 	// FailK >= 0: before the walks a user adds a comment to the walked bug through the API, and the FailK-th storage
 	// operation of that request fails (the request is answered with an error, or succeeds when it needs fewer)
 	FailK int `json:"fail_k"`
+	// CreateK >= 0: at the end, another user of the same server creates a bug while a client walks allBugs in
+	// creation order: the client's first page (size CreatePage) is served just before the CreateK-th storage
+	// operation of the creation, the following pages after it
+	CreateK    int `json:"create_k"`
+	CreatePage int `json:"create_page"`
 }
 
 func genC20Walk(t *rapid.T) c20WalkCase {
@@ -563,6 +568,8 @@ func genC20Walk(t *rapid.T) c20WalkCase {
 		c.Labels = append(c.Labels, rapid.IntRange(0, 4).Draw(t, "labels"))
 	}
 	c.FailK = rapid.IntRange(-6, 8).Draw(t, "failK")
+	c.CreateK = rapid.IntRange(-4, 8).Draw(t, "createK")
+	c.CreatePage = rapid.IntRange(1, 3).Draw(t, "createPage")
 	return c
 }
 
@@ -861,6 +868,59 @@ func runC20Walk(tb report.TB, rep *report.Reporter, c c20WalkCase) {
 				}
 				if strings.Join(got, ",") != strings.Join(full.keys, ",") {
 					if fail("walk-does-not-visit-every-element-once-in-order/"+dir, fmt.Sprintf("%s walk with page size %d\nlist %v\nwalk %v", dir, size, full.keys, got)) {
+						return
+					}
+				}
+			}
+		}
+	}
+	// ---- a walk in creation order while somebody else creates a bug: a creation can only append to that order,
+	// so the walk visits every bug that existed when it started exactly once, in order
+	if c.CreateK >= 0 {
+		if rcd, err := mrc.DefaultRepo(); err == nil {
+			pathFmt, extra := "{ repository { allBugs%s { %s } } }", `query: "sort:creation-asc"`
+			start, err := connPage(h, pathFmt, extra, "id")
+			if err != nil {
+				tb.Fatalf("harness: %v", err)
+			}
+			creator, err := rcd.GetUserIdentity()
+			if err != nil {
+				tb.Fatalf("harness: %v", err)
+			}
+			var page1 gqlPage
+			var page1Err error
+			served := false
+			fr.HookAt = len(fr.Log) + c.CreateK
+			fr.Hook = func() {
+				served = true
+				page1, page1Err = connPage(h, pathFmt, fmt.Sprintf("%s, first: %d", extra, c.CreatePage), "id")
+			}
+			_, _, cerr := rcd.Bugs().NewRaw(creator, 9_999_999, "created while somebody pages through the list", "m", nil, nil)
+			fr.Hook = nil
+			if cerr != nil {
+				tb.Fatalf("harness: creation: %v", cerr)
+			}
+			if served && page1Err == nil {
+				walk := append([]string(nil), page1.keys...)
+				cursor, more := page1.end, page1.hasNext
+				for step := 0; more && step < len(start.keys)+3; step++ {
+					p, err := connPage(h, pathFmt, fmt.Sprintf("%s, first: %d, after: %q", extra, c.CreatePage, cursor), "id")
+					if err != nil || len(p.keys) == 0 {
+						break
+					}
+					walk = append(walk, p.keys...)
+					cursor, more = p.end, p.hasNext
+				}
+				old := setOf(start.keys)
+				var seenOld []string
+				for _, k := range walk {
+					if old[k] {
+						seenOld = append(seenOld, k)
+					}
+				}
+				rep.Class("walks-across-a-creation", 1)
+				if strings.Join(seenOld, ",") != strings.Join(start.keys, ",") {
+					if rep.Fail(tb, "C20/graphql/allBugs(creation-asc)/walk-across-a-creation-repeats-or-skips", fmt.Sprintf("page size %d, first page served before storage operation #%d of the creation\nlist when the walk started %v\nwalk %v", c.CreatePage, c.CreateK, start.keys, walk), c) {
 						return
 					}
 				}
